@@ -24,6 +24,7 @@ import (
 	"grol.io/grol/object"
 	"grol.io/grol/parser"
 	"grol.io/grol/token"
+	"grol.io/grol/verifhook"
 )
 
 const (
@@ -123,20 +124,24 @@ func AutoSave(s *eval.State, options Options) error {
 		log.Infof("Nothing changed, not auto saving")
 		return nil
 	}
+	_ = verifhook.Point("autosave.start")
 	f, err := os.CreateTemp(".", ".grol*.tmp")
 	if err != nil {
 		return err
 	}
+	_ = verifhook.Point("autosave.created")
 	// Write to temp file.
 	n, err := s.SaveGlobals(f)
 	if err != nil {
 		return err
 	}
+	_ = verifhook.Point("autosave.written")
 	// Rename "atomically" (not really but close enough).
 	err = os.Rename(f.Name(), AutoSaveFile)
 	if err != nil {
 		return err
 	}
+	_ = verifhook.Point("autosave.renamed")
 	log.Infof("Auto saved %d ids/fns (%d set) to: %s", n, updates, AutoSaveFile)
 	return nil
 }
